@@ -111,6 +111,12 @@ def gen_case(rng, fam):
     case = {'family': 'T', 'threads': nthreads, 'per_thread': rng.randrange(2, 6), 'chain': chain,
             'sink_ms': rng.choice([0, 1, 3]), 'sink_kind': rng.choice(['coro', 'future', 'sync', 'tornado'])}
     if rng.random() < 0.3:
+        # consumers that forward the element into a second loop-bound pipeline with a nested emit() (the
+        # `a.sink(b.emit)` pattern), from 2-3 caller threads whose emits overlap and finish at different times
+        case.update({'forwarding': True, 'threads': rng.choice([2, 2, 3]), 'per_thread': rng.choice([1, 2]),
+                     'sink_kind': 'coro', 'sink_ms': 0, 'fwd_ms': [rng.choice([5, 20, 60]) for _ in range(3)]})
+        return case
+    if rng.random() < 0.3:
         # a consumer that outlasts the internal polling period of the blocking wait: the harness scales the
         # timeouts streamz passes to threading.Event.wait by 1/100 (10 s -> 0.1 s) and makes the consumer take 0.25 s
         case.update({'scaled_waits': True, 'sink_ms': 250, 'per_thread': 1, 'threads': rng.choice([1, 2]),
@@ -321,7 +327,24 @@ def check_threaded(case, counters, sets):
         elif op == 'rate_limit':
             node = node.rate_limit(0.001)
     probe = node.buffer(1) if False else None      # never: direct pipelines only
-    if kind == 'coro':
+    other = None
+    if case.get('forwarding'):
+        other = Stream()
+        other_tail = other.rate_limit(0)           # binds the second pipeline to the background loop as well
+
+        def other_sink(x):
+            rec('FWD_DONE', x)
+        other_keep = other_tail.sink(other_sink)
+        fwd_ms = case['fwd_ms']
+
+        async def sink(x):
+            rec('START', x)
+            await asyncio.sleep(fwd_ms[x[0] % len(fwd_ms)] / 1000.0)
+            r = other.emit(x)                       # nested emit, on the loop thread
+            if r is not None and hasattr(r, '__await__'):
+                await r
+            rec('END', x)
+    elif kind == 'coro':
         async def sink(x):
             rec('START', x)
             if ms:
@@ -369,11 +392,36 @@ def check_threaded(case, counters, sets):
     ths = [threading.Thread(target=worker, args=(t,), daemon=True) for t in range(case['threads'])]
     for t in ths:
         t.start()
-    deadline = time.time() + 60
+    deadline = time.time() + (8 if case.get('forwarding') else 60)
     for t in ths:
         t.join(max(0.1, deadline - time.time()))
     hung = any(t.is_alive() for t in ths)
     score.threading = real_threading
+    if hung and case.get('forwarding'):
+        # not a timing guess: is the loop thread itself sitting inside sync(), waiting for a callback that only
+        # it could run?  Then no emit on this loop can ever complete again.
+        import sys as _sys
+        import traceback as _tb
+        stuck = None
+        for tid, frame in _sys._current_frames().items():
+            names = [f.name for f in _tb.extract_stack(frame)]
+            files = [f.filename for f in _tb.extract_stack(frame)]
+            if 'sync' in names and any('tornado' in f or 'asyncio' in f for f in files) and \
+                    any(n in ('_run_once', 'run_forever', 'start') for n in names):
+                stuck = names[-6:]
+        score._io_loops.clear()          # the background loop is lost: later cases get a fresh one
+        if stuck is not None:
+            counters['T_emits_checked'] = counters.get('T_emits_checked', 0) + 1
+            v = [{'key': 'C03:loop-thread-blocked-in-sync@Stream.emit',
+                  'what': 'overlapping blocking emits from %d threads with consumers that forward via a nested emit(): the '
+                          'event-loop thread itself called sync() and waits for a callback only it could run (%s); the pending '
+                          'blocking emit can never return' % (case['threads'], ' > '.join(stuck)), 'case': case}]
+
+            class D2:
+                pass
+            d2 = D2()
+            d2.interesting = True
+            return d2, v
     if case.get('scaled_waits'):
         time.sleep(0.4)         # let the consumers finish before the next case
         counters['T_emits_outlasting_the_wait_period'] = counters.get('T_emits_outlasting_the_wait_period', 0) + case['threads']
